@@ -1004,3 +1004,343 @@ def hoist_walrus(tree: ast.Module) -> int:
     if n:
         ast.fix_missing_locations(tree)
     return n
+
+
+# ------------------------------------------------------------------------------------------------ match -> if/elif
+
+def _named_fields(tree: ast.Module) -> dict[str, list[str]]:
+    """positional pattern order of classes defined in this module: annotated fields of NamedTuple / dataclass bodies, or __match_args__"""
+    out: dict[str, list[str]] = {}
+    for st in ast.walk(tree):
+        if isinstance(st, ast.ClassDef):
+            ma = [x for x in st.body if isinstance(x, ast.Assign) and any(isinstance(t, ast.Name) and t.id == "__match_args__" for t in x.targets)]
+            if ma and isinstance(ma[0].value, (ast.Tuple, ast.List)) and all(isinstance(e, ast.Constant) for e in ma[0].value.elts):
+                out[st.name] = [e.value for e in ma[0].value.elts]
+                continue
+            is_nt = any((isinstance(b, ast.Name) and b.id == "NamedTuple") or (isinstance(b, ast.Attribute) and b.attr == "NamedTuple") for b in st.bases)
+            is_dc = any((isinstance(d, ast.Name) and d.id == "dataclass") or (isinstance(d, ast.Call) and isinstance(d.func, ast.Name) and d.func.id == "dataclass")
+                        or (isinstance(d, ast.Attribute) and d.attr == "dataclass") for d in st.decorator_list)
+            if is_nt or is_dc:
+                out[st.name] = [x.target.id for x in st.body if isinstance(x, ast.AnnAssign) and isinstance(x.target, ast.Name)]
+        elif isinstance(st, ast.Assign) and isinstance(st.value, ast.Call) and isinstance(st.value.func, ast.Name) and st.value.func.id in ("namedtuple", "NamedTuple") \
+                and len(st.targets) == 1 and isinstance(st.targets[0], ast.Name) and len(st.value.args) >= 2:
+            f = st.value.args[1]
+            if isinstance(f, (ast.List, ast.Tuple)):
+                names = []
+                for e in f.elts:
+                    if isinstance(e, ast.Constant) and isinstance(e.value, str):
+                        names.append(e.value)
+                    elif isinstance(e, ast.Tuple) and e.elts and isinstance(e.elts[0], ast.Constant):
+                        names.append(e.elts[0].value)
+                out[st.targets[0].id] = names
+            elif isinstance(f, ast.Constant) and isinstance(f.value, str):
+                out[st.targets[0].id] = f.value.replace(",", " ").split()
+    return out
+
+
+def _pattern(pat, subj, fields) -> tuple[ast.expr | None, list[tuple[str, ast.expr]]] | None:
+    """(condition or None for always, captures) for a pattern matched against the simple expression subj; None = not expressible exactly"""
+    T = ast.Constant(True)
+    if isinstance(pat, ast.MatchValue):
+        return ast.Compare(_clone(subj), [ast.Eq()], [pat.value]), []
+    if isinstance(pat, ast.MatchSingleton):
+        return ast.Compare(_clone(subj), [ast.Is()], [ast.Constant(pat.value)]), []
+    if isinstance(pat, ast.MatchAs):
+        if pat.pattern is None:
+            return None if False else (None, [(pat.name, _clone(subj))] if pat.name else [])
+        r = _pattern(pat.pattern, subj, fields)
+        if r is None:
+            return None
+        return r[0], r[1] + ([(pat.name, _clone(subj))] if pat.name else [])
+    if isinstance(pat, ast.MatchOr):
+        conds = []
+        for p in pat.patterns:
+            r = _pattern(p, subj, fields)
+            if r is None or r[1]:
+                return None
+            if r[0] is None:
+                return None, []
+            conds.append(r[0])
+        return ast.BoolOp(ast.Or(), conds), []
+    if isinstance(pat, ast.MatchSequence) and isinstance(subj, ast.Tuple) and len(subj.elts) == len(pat.patterns) \
+            and not any(isinstance(p, ast.MatchStar) for p in pat.patterns):
+        conds, caps = [], []
+        for p, e in zip(pat.patterns, subj.elts):
+            r = _pattern(p, e, fields)
+            if r is None:
+                return None
+            if r[0] is not None:
+                conds.append(r[0])
+            caps += r[1]
+        return (ast.BoolOp(ast.And(), conds) if len(conds) > 1 else conds[0] if conds else None), caps
+    if isinstance(pat, ast.MatchClass) and isinstance(pat.cls, (ast.Name, ast.Attribute)):
+        cname = pat.cls.id if isinstance(pat.cls, ast.Name) else pat.cls.attr
+        names = list(pat.kwd_attrs)
+        subs = list(pat.kwd_patterns)
+        if pat.patterns:
+            order = fields.get(cname)
+            if order is None or len(pat.patterns) > len(order):
+                return None
+            names = order[:len(pat.patterns)] + names
+            subs = list(pat.patterns) + subs
+        conds = [ast.Call(ast.Name("isinstance", ast.Load()), [_clone(subj), _clone(pat.cls)], [])]
+        caps = []
+        for n, p in zip(names, subs):
+            r = _pattern(p, ast.Attribute(_clone(subj), n, ast.Load()), fields)
+            if r is None:
+                return None
+            if r[0] is not None:
+                conds.append(r[0])
+            caps += r[1]
+        return (ast.BoolOp(ast.And(), conds) if len(conds) > 1 else conds[0]), caps
+    return None
+
+
+def desugar_match(tree: ast.Module) -> int:
+    """`match` statements whose patterns are values / singletons / captures / wildcards / or-patterns / fixed tuples over a tuple display /
+    class patterns over attributes become the if/elif chain Python executes for them (first matching case wins, no case = fall through)"""
+    fields = _named_fields(tree)
+    n = 0
+
+    def simple(e) -> bool:
+        return _simple_arg(e) or (isinstance(e, ast.Tuple) and all(_simple_arg(x) for x in e.elts))
+
+    def block(stmts):
+        nonlocal n
+        out = []
+        for st in stmts:
+            for field in ("body", "orelse", "finalbody"):
+                blk = getattr(st, field, None)
+                if isinstance(blk, list) and blk and isinstance(blk[0], ast.stmt):
+                    setattr(st, field, block(blk))
+            if isinstance(st, ast.Try):
+                for h in st.handlers:
+                    h.body = block(h.body)
+            if isinstance(st, ast.Match):
+                for c in st.cases:
+                    c.body = block(c.body)
+                pre = []
+                subj = st.subject
+                if not simple(subj):
+                    pre.append(ast.copy_location(ast.Assign([ast.Name("_match_subject", ast.Store())], subj), st))
+                    subj = ast.Name("_match_subject", ast.Load())
+                arms = []
+                ok = True
+                for c in st.cases:
+                    r = _pattern(c.pattern, subj, fields)
+                    if r is None:
+                        ok = False
+                        break
+                    cond, caps = r
+                    if c.guard is not None and caps:
+                        ok = False           # the guard reads the captures: binding them first would need a nested scope
+                        break
+                    if c.guard is not None:
+                        cond = c.guard if cond is None else ast.BoolOp(ast.And(), [cond, c.guard])
+                    body = [ast.copy_location(ast.Assign([ast.Name(k, ast.Store())], v), c.body[0]) for k, v in caps] + c.body
+                    arms.append((cond, body))
+                if ok and arms:
+                    chain: list = []
+                    for cond, body in reversed(arms):
+                        if cond is None:
+                            chain = body
+                        else:
+                            chain = [ast.copy_location(ast.If(cond, body, chain), st)]
+                    out.extend(pre + chain)
+                    n += 1
+                    continue
+                if pre:
+                    st.subject = pre[0].value
+            out.append(st)
+        return out
+
+    for node in ast.walk(tree):
+        if isinstance(node, (ast.FunctionDef, ast.AsyncFunctionDef)):
+            node.body = block(node.body)
+    if n:
+        ast.fix_missing_locations(tree)
+    return n
+
+
+# ------------------------------------------------------------------------------------------------ decision threading
+
+def _tag_const(e) -> str | None:
+    """a value that identifies itself: literal constant or Enum-like dotted name"""
+    if isinstance(e, ast.Constant):
+        return "c:" + repr(e.value)
+    if isinstance(e, ast.Attribute) and isinstance(e.value, ast.Name) and e.value.id[:1] in "_ABCDEFGHIJKLMNOPQRSTUVWXYZ" and e.attr.isupper():
+        return f"e:{e.value.id}.{e.attr}"
+    return None
+
+
+def _tags_differ(a: str, b: str) -> bool | None:
+    if a == b:
+        return False
+    if a[0] == "c" and b[0] == "c":
+        return True
+    if a[0] == "e" and b[0] == "e" and a.split(".")[0] == b.split(".")[0]:
+        return True                      # two members of the same enumeration
+    if {a[0], b[0]} == {"c", "e"} and (a == "c:None" or b == "c:None"):
+        return True
+    return None
+
+
+def _eval_tag_test(test, name: str, tag: str) -> bool | None:
+    """truth of a test over the tag local `name` when it holds `tag`; None if the test is about something else / unknown"""
+    if isinstance(test, ast.UnaryOp) and isinstance(test.op, ast.Not):
+        r = _eval_tag_test(test.operand, name, tag)
+        return None if r is None else not r
+    if isinstance(test, ast.Name) and test.id == name and tag[0] == "c":
+        return bool(ast.literal_eval(tag[2:]))
+    if isinstance(test, ast.Name) and test.id == name and tag[0] == "e":
+        return None
+    if isinstance(test, ast.Compare) and len(test.ops) == 1:
+        l, op, r = test.left, test.ops[0], test.comparators[0]
+        if isinstance(r, ast.Name) and r.id == name and not (isinstance(l, ast.Name) and l.id == name):
+            l, r = r, l
+        if not (isinstance(l, ast.Name) and l.id == name):
+            return None
+        if isinstance(op, (ast.In, ast.NotIn)) and isinstance(r, (ast.Tuple, ast.List, ast.Set)):
+            res = []
+            for e in r.elts:
+                t = _tag_const(e)
+                if t is None:
+                    return None
+                d = _tags_differ(tag, t)
+                if d is None:
+                    return None
+                res.append(not d)
+            return any(res) if isinstance(op, ast.In) else not any(res)
+        t = _tag_const(r)
+        if t is None:
+            return None
+        d = _tags_differ(tag, t)
+        if d is None:
+            return None
+        if isinstance(op, (ast.Eq, ast.Is)):
+            return not d
+        if isinstance(op, (ast.NotEq, ast.IsNot)):
+            return d
+    return None
+
+
+def _select_arm(chain: ast.If, name: str, tag: str):
+    """statements executed by the if/elif chain when `name` holds `tag`; None if some test cannot be decided"""
+    cur = chain
+    while True:
+        r = _eval_tag_test(cur.test, name, tag)
+        if r is None:
+            return None
+        if r:
+            return cur.body
+        if len(cur.orelse) == 1 and isinstance(cur.orelse[0], ast.If):
+            cur = cur.orelse[0]
+            continue
+        return cur.orelse
+
+
+def _leaf_assignments(stmts, name: str):
+    """if every path through stmts ends by assigning a tag constant to `name` as its last statement: list of (block, index) of those
+    assignments; else None"""
+    if not stmts:
+        return None
+    last = stmts[-1]
+    if isinstance(last, ast.Assign) and len(last.targets) == 1 and isinstance(last.targets[0], ast.Name) and last.targets[0].id == name:
+        if isinstance(last.value, ast.IfExp):
+            return None
+        return [(stmts, len(stmts) - 1)] if _tag_const(last.value) else None
+    if isinstance(last, ast.If) and last.orelse:
+        a, b = _leaf_assignments(last.body, name), _leaf_assignments(last.orelse, name)
+        if a is None or b is None:
+            return None
+        return a + b
+    return None
+
+
+def _split_ifexp_tags(block, known: set[str]) -> None:
+    """`t = A if c else B` (t a new local, A/B tag constants or nested conditionals of them) -> if c: t = A else: t = B"""
+    i = 0
+    while i < len(block):
+        st = block[i]
+        if isinstance(st, ast.Assign) and len(st.targets) == 1 and isinstance(st.targets[0], ast.Name) and st.targets[0].id not in known \
+                and isinstance(st.value, ast.IfExp):
+            def expand(v):
+                if isinstance(v, ast.IfExp):
+                    a, b = expand(v.body), expand(v.orelse)
+                    if a is None or b is None:
+                        return None
+                    return [ast.copy_location(ast.If(v.test, a, b), st)]
+                if _tag_const(v) is None:
+                    return None
+                return [ast.copy_location(ast.Assign([ast.Name(st.targets[0].id, ast.Store())], v), st)]
+            r = expand(st.value)
+            if r is not None:
+                block[i:i + 1] = r
+        i += 1
+
+
+def thread_decisions(fn, known_locals: set[str]) -> int:
+    """
+    A NEW local that every path of an if-statement sets to a self-identifying constant (literal / Enum member) and that the directly following
+    if/elif chain only compares with such constants is a decision passed from one statement to the next: each assignment is followed by exactly
+    one arm of the chain, so the arm is moved to the assignment ("jump threading").  Exact, because the tests only read the local.
+    """
+    done = 0
+
+    def reads(nodes, name) -> int:
+        return sum(1 for s in nodes for x in ast.walk(s) if isinstance(x, ast.Name) and x.id == name and isinstance(x.ctx, ast.Load))
+
+    def chain_test_reads(chain, name) -> int:
+        n, cur = 0, chain
+        while True:
+            n += reads([cur.test], name)
+            if len(cur.orelse) == 1 and isinstance(cur.orelse[0], ast.If):
+                cur = cur.orelse[0]
+                continue
+            return n
+
+    def block(stmts):
+        nonlocal done
+        _split_ifexp_tags(stmts, known_locals)
+        i = 0
+        while i < len(stmts):
+            st = stmts[i]
+            for field in ("body", "orelse", "finalbody"):
+                blk = getattr(st, field, None)
+                if isinstance(blk, list) and blk and isinstance(blk[0], ast.stmt):
+                    block(blk)
+            if isinstance(st, ast.Try):
+                for h in st.handlers:
+                    block(h.body)
+            nxt = stmts[i + 1] if i + 1 < len(stmts) else None
+            if isinstance(st, ast.If) and isinstance(nxt, ast.If):
+                for name in {x.id for x in ast.walk(st) if isinstance(x, ast.Name) and isinstance(x.ctx, ast.Store)} - known_locals:
+                    leaves = _leaf_assignments([st], name)
+                    if not leaves:
+                        continue
+                    # the local is read only by the tests of the chain (arms may not read it, nothing later may read it)
+                    if reads([fn], name) != chain_test_reads(nxt, name) or reads([st], name):
+                        continue
+                    arms = []
+                    for blk, idx in leaves:
+                        arm = _select_arm(nxt, name, _tag_const(blk[idx].value))
+                        if arm is None:
+                            arms = None
+                            break
+                        arms.append(arm)
+                    if arms is None or sum(len(a) for a in arms) > 4 * DUP_LIMIT:
+                        continue
+                    for (blk, idx), arm in zip(leaves, arms):
+                        blk[idx:idx + 1] = _clone(arm) or [ast.copy_location(ast.Pass(), blk[idx])]
+                    del stmts[i + 1]
+                    done += 1
+                    block(st.body)
+                    block(st.orelse)
+                    break
+            i += 1
+
+    block(fn.body)
+    if done:
+        ast.fix_missing_locations(fn)
+    return done
+
